@@ -393,7 +393,7 @@ def scenario_history(rng, optset, nhist):
     return cases
 
 
-def scenario_large(rng, optset, threads_list, with_mfnd):
+def scenario_large(rng, optset, threads_list, with_mfnd, nbig=14, k=9):
     contig = optset == "fast"
     nv = 40
     verts = list(range(nv)) if contig else sorted(rng.sample([x for x in range(-100, 200) if x != -1], nv))
@@ -402,9 +402,8 @@ def scenario_large(rng, optset, threads_list, with_mfnd):
     if contig:
         for v in verts:
             ops.append("ins %d %s" % (v, vstr(rng.choice(pool))))
-    nbig = 14
     for _ in range(nbig):
-        s = tuple(sorted(rng.sample(verts, 9)))
+        s = tuple(sorted(rng.sample(verts, k)))
         ops.append("ins %s %s" % (sstr(s), vstr(rng.choice(pool))))
     ops.append("range")
     if with_mfnd:
@@ -455,11 +454,11 @@ def generate(ctx):
     thorough = tier == "thorough"
     cases = []
     cases += boundary_cases()
-    nsmall = 260 if thorough else 60
+    nsmall = 1000 if thorough else 90
     for o in OPTSETS:
         for _ in range(nsmall):
             cases.append(scenario_small(rng, o, tier))
-    nh = 8 if thorough else 3
+    nh = 25 if thorough else 4
     hist_groups = []
     for o in OPTSETS:
         for _ in range(nh):
@@ -473,6 +472,11 @@ def generate(ctx):
         tl = [1, 2, 4, 16] if o in sweep else [4]
         for with_mfnd in ([False, True] if (thorough or o in ("def", "fast")) else [False]):
             g = scenario_large(rng, o, tl, with_mfnd)
+            large_groups.append(g)
+            cases += g
+    if thorough:
+        for o in ("def", "full", "fast"):
+            g = scenario_large(rng, o, [1, 2, 4, 16], False, nbig=9, k=11)     # about 16000 simplices
             large_groups.append(g)
             cases += g
     return cases, hist_groups, large_groups
